@@ -48,6 +48,7 @@ type GenOpts struct {
 	PEnd        float64 // probability of SliceEnd/MapEnd per collection
 	PCOE        float64 // probability that a parallel without End hooks uses ContinueOnError
 	MaxTasks    int
+	PBig        float64  // probability of a flow with 13..17 tasks (sorting routines change algorithm above 12 elements)
 	Spellings   []string // allowed function spellings
 	ExtTypes    bool     // allow ext / ext2 types
 	ModSubset   bool     // restrict flows to the modifier-mode subset
@@ -161,6 +162,9 @@ func GenFlow(t *rapid.T, name string, o GenOpts) *rt.Spec {
 		}
 	}
 	nt := 1 + uniform(t, "ntasks", o.MaxTasks)
+	if o.PBig > 0 && prob(t, "big", o.PBig) {
+		nt = 13 + uniform(t, "bigntasks", 5)
+	}
 	unit := 0
 	pickIn := func(max int, extOnly bool) []rt.TypeRef {
 		var cands []rt.TypeRef
